@@ -34,7 +34,8 @@ func init() {
 				"textCell.isSep", "numberCell.isSep", "percentCell.isSep", "SeparatorCell.isSep", "emptyCell.isSep", "createSep",
 				"writeString", "writeStrings", "writeSpace", "TextRenderer.minLengthCell", "TextRenderer.renderCell", "TextRenderer.Render",
 				"CSVRenderer.renderCell", "CSVRenderer.Render", "New",
-				"Table.Width", "Row.addCell", "Row.AddEmpty", "Row.AddText", "Row.AddDecimal", "Row.AddPercent", "Row.AddIndented")
+				"Table.Width", "Row.addCell", "Row.AddEmpty", "Row.AddText", "Row.AddDecimal", "Row.AddPercent", "Row.AddIndented",
+				"Table.AddRow", "Table.AddSeparatorRow", "Table.AddEmptyRow", "Row.FillEmpty")
 			if u.agree == nil {
 				u.agree = map[string]string{}
 			}
@@ -519,7 +520,13 @@ var trAmbients = []*trAmbient{trAmbColor, trAmbFloat}
 const trColorPath = "github.com/fatih/color"
 
 // trAmbientType: the Lean type of an ambient state variable
+var trSynthVarType = map[types.Object]string{}
+var trAliasKeyObj = map[*trAlias]*types.Var{}
+
 func trAmbientType(o types.Object) (string, bool) {
+	if t, ok := trSynthVarType[o]; ok {
+		return t, true
+	}
 	for _, a := range trAmbients {
 		if a.obj == o {
 			return a.typ, true
@@ -561,7 +568,7 @@ func (w *Writer) Flush()`)
 // trTableImports: the prelude modules of this file, when the generated text uses them
 func trTableImports(text string) string {
 	s := ""
-	if strings.Contains(text, "Color.") || strings.Contains(text, "Fmt.FloatFmt") || strings.Contains(text, "makeSlice") {
+	if strings.Contains(text, "Color.") || strings.Contains(text, "Fmt.FloatFmt") || strings.Contains(text, "makeSlice") || strings.Contains(text, "Slices.") {
 		s += "import Knut.GoSem.TableFmt\n"
 	}
 	if strings.Contains(text, "Csv.") {
@@ -733,6 +740,11 @@ func (c *trCtx) ambientExtra(ty string) (string, bool) {
 // ambientUsed: the ambient objects a node reads or writes (for the free variables and the state of loops and joins)
 func (c *trCtx) ambientUsed(n ast.Node, assignedOnly bool) []types.Object {
 	var res []types.Object
+	if id, ok := n.(*ast.Ident); ok && !assignedOnly && c.aliases != nil {
+		if al := c.aliases[c.info().Uses[id]]; al != nil && al.slice {
+			res = append(res, trAliasKeyObj[al]) // the index of an alias into a slice goes where the alias goes
+		}
+	}
 	for _, a := range trAmbients {
 		if _, known := c.names[a.obj]; !known {
 			continue
@@ -995,9 +1007,31 @@ func (c *trCtx) makeSliceLen(x *ast.CallExpr) (string, bool) {
 
 // trTableEffect: the node needs the Outcome monad: make([]T, n), a csv.Writer (whose sink is read through Csv.Writer.dropped)
 func trTableEffect(info *types.Info, n ast.Node) bool {
+	if cl, ok := n.(*ast.CompositeLit); ok {
+		// a literal that gives a capacity-tracked field (the capacity of make([]T, 0, n): a negative n panics)
+		if tv, ok := info.Types[cl]; ok && tv.Type != nil {
+			st := tv.Type.Underlying()
+			if p, ok := st.(*types.Pointer); ok {
+				st = p.Elem().Underlying()
+			}
+			if u, ok := st.(*types.Struct); ok && len(cl.Elts) > 0 {
+				for i := 0; i < u.NumFields(); i++ {
+					if trCapFieldOf(tv.Type, u.Field(i).Name()) {
+						return true
+					}
+				}
+			}
+		}
+		return false
+	}
 	call, ok := n.(*ast.CallExpr)
 	if !ok {
 		return false
+	}
+	if id, ok := call.Fun.(*ast.Ident); ok && id.Name == "cap" {
+		if _, isB := info.Uses[id].(*types.Builtin); isB {
+			return true
+		}
 	}
 	if id, ok := call.Fun.(*ast.Ident); ok && id.Name == "make" && len(call.Args) == 2 {
 		if _, isB := info.Uses[id].(*types.Builtin); isB {
@@ -1015,3 +1049,368 @@ func trTableEffect(info *types.Info, n ast.Node) bool {
 	}
 	return false
 }
+
+// ---------------------------------------------------------------------------------------------- range over a slice that the body writes
+
+// rangeSelfWrite: `for i, v := range xs` is translated as a loop over xs AS IT WAS at loop entry; Go reads xs[i] when iteration i
+// starts.  The two agree unless the body stores into an element of xs that a LATER iteration reads: an assignment `xs[e] = …` in the
+// body is accepted only for `e` = the loop's own key variable (Render's third width pass); every other one is rejected.
+func (c *trCtx) rangeSelfWrite(x *ast.RangeStmt) {
+	if _, ok := c.typeOfOrNil(x.X).Underlying().(*types.Slice); !ok {
+		return
+	}
+	src := trSrcText(c.t.l.fset, x.X)
+	var key types.Object
+	if id, ok := x.Key.(*ast.Ident); ok && id.Name != "_" {
+		key = c.info().Defs[id]
+	}
+	ast.Inspect(x.Body, func(n ast.Node) bool {
+		var lhs []ast.Expr
+		switch s := n.(type) {
+		case *ast.AssignStmt:
+			lhs = s.Lhs
+		case *ast.IncDecStmt:
+			lhs = []ast.Expr{s.X}
+		case *ast.FuncLit:
+			return false
+		}
+		for _, l := range lhs {
+			for {
+				// xs[e] = …, xs[e].f = …, xs[e][k] = …
+				switch y := trUnparen(l).(type) {
+				case *ast.SelectorExpr:
+					l = y.X
+					continue
+				case *ast.IndexExpr:
+					if trSrcText(c.t.l.fset, y.X) == src {
+						id, isID := trUnparen(y.Index).(*ast.Ident)
+						if !isID || key == nil || c.info().Uses[id] != key {
+							trFail(l.Pos(), "the body of this range loop stores into an element of the slice it ranges over at an index that is not the loop's key: a later iteration would read it (the translation ranges over the slice as it was)")
+						}
+					}
+					l = y.X
+					continue
+				}
+				break
+			}
+		}
+		return true
+	})
+}
+
+// ---------------------------------------------------------------------------------------------- the capacity of Row.cells
+//
+//   cap(r.cells)         for the struct fields of trCapFields the CAPACITY of the slice is tracked in a companion field `<f>_cap : Option Int`:
+//                        `make([]T, 0, n)` stored there (directly, or through a local of the same declaration that is defined by it) has
+//                        the capacity `n` (a negative one panics); `x.f = append(x.f, v…)` keeps it while the new length fits and makes
+//                        it UNKNOWN (`none`) otherwise — the runtime decides the capacity of the reallocated array; the zero value has
+//                        capacity 0.  `cap(x.f)` of an unknown capacity is the distinct outcome `Slices.capUnknown` (nothing is claimed,
+//                        as the hand model's `fillEmpty` answers `none`).  Every other store into such a field is rejected.
+
+var trCapFields = map[string]bool{trTablePath + ".Row.cells": true}
+
+func trCapFieldOf(ty types.Type, field string) bool {
+	if p, ok := ty.Underlying().(*types.Pointer); ok {
+		ty = p.Elem()
+	}
+	n, ok := ty.(*types.Named)
+	return ok && n.Obj().Pkg() != nil && trCapFields[n.Obj().Pkg().Path()+"."+n.Obj().Name()+"."+field]
+}
+
+// capSel: the expression is a selection x.f of a capacity-tracked field: (x, f)
+func (c *trCtx) capSel(e ast.Expr) (*ast.SelectorExpr, bool) {
+	sel, ok := trUnparen(e).(*ast.SelectorExpr)
+	if !ok {
+		return nil, false
+	}
+	s, ok := c.info().Selections[sel]
+	if !ok || s.Kind() != types.FieldVal || !trCapFieldOf(s.Recv(), sel.Sel.Name) {
+		return nil, false
+	}
+	return sel, true
+}
+
+// capBuiltin: cap(x.f)
+func (c *trCtx) capBuiltin(x *ast.CallExpr) (string, bool) {
+	sel, ok := c.capSel(x.Args[0])
+	if !ok {
+		return "", false
+	}
+	return c.hoist("Slices.capE "+c.expr(sel.X)+"."+trMangle(sel.Sel.Name)+"_cap", x.Pos()), true
+}
+
+// capAssign: x.f = append(x.f, v…) for a capacity-tracked field
+func (c *trCtx) capAssign(x *ast.AssignStmt, k trK) (trLines, bool) {
+	if len(x.Lhs) != 1 || len(x.Rhs) != 1 {
+		return nil, false
+	}
+	sel, ok := c.capSel(x.Lhs[0])
+	if !ok {
+		return nil, false
+	}
+	call, isCall := trUnparen(x.Rhs[0]).(*ast.CallExpr)
+	var id *ast.Ident
+	if isCall {
+		id, _ = call.Fun.(*ast.Ident)
+	}
+	if x.Tok != token.ASSIGN || id == nil || id.Name != "append" || call.Ellipsis != token.NoPos || len(call.Args) < 2 ||
+		trSrcText(c.t.l.fset, call.Args[0]) != trSrcText(c.t.l.fset, x.Lhs[0]) {
+		trFail(x.Pos(), "the capacity of %s is tracked: only `x.f = append(x.f, v…)` may store into it", trSrc(x.Lhs[0]))
+	}
+	f := trMangle(sel.Sel.Name)
+	base := c.expr(sel.X)
+	var els []string
+	for _, a := range call.Args[1:] {
+		els = append(els, c.exprAs(a, c.typeOf(x.Lhs[0]).Underlying().(*types.Slice).Elem()))
+	}
+	pre := c.takePre()
+	val := "{ " + base + " with " + f + " := (" + base + "." + f + " ++ [" + strings.Join(els, ", ") + "]), " + f + "_cap := (Slices.appendCap " +
+		base + "." + f + "_cap ((len " + base + "." + f + ") + (" + itoa(len(els)) + " : Int))) }"
+	k = c.writeBack(x.Lhs[0], k)
+	name, ty, term := c.storeTerm(sel.X, val, x.Pos())
+	pre = append(pre, c.takePre()...)
+	return trWrapPre(pre, trLet(name, ty, trOne(term), k())), true
+}
+
+// capLiteral: the capacity of the value given to a capacity-tracked field in a composite literal ("" = the field is not given)
+func (c *trCtx) capLiteral(e ast.Expr) string {
+	mk := func(e ast.Expr) (string, bool) {
+		call, ok := trUnparen(e).(*ast.CallExpr)
+		if !ok {
+			return "", false
+		}
+		id, ok := call.Fun.(*ast.Ident)
+		if !ok || id.Name != "make" || len(call.Args) != 3 {
+			return "", false
+		}
+		if _, isB := c.info().Uses[id].(*types.Builtin); !isB {
+			return "", false
+		}
+		if tv := c.info().Types[call.Args[1]]; tv.Value == nil || tv.Value.ExactString() != "0" {
+			return "", false
+		}
+		return c.hoist("Slices.makeCap "+c.expr(call.Args[2]), call.Pos()), true
+	}
+	if s, ok := mk(e); ok {
+		return s
+	}
+	// a local of the same declaration (var ( cells = make(…); row = &Row{cells} )) or of the statement before, defined once by such a make
+	if id, ok := trUnparen(e).(*ast.Ident); ok {
+		if v, ok := c.info().Uses[id].(*types.Var); ok {
+			var def ast.Expr
+			var defStmt ast.Node
+			count := 0
+			ast.Inspect(c.fn.decl.Body, func(n ast.Node) bool {
+				switch s := n.(type) {
+				case *ast.AssignStmt:
+					for i, l := range s.Lhs {
+						if lid, ok := l.(*ast.Ident); ok && (c.info().Defs[lid] == v || c.info().Uses[lid] == v) {
+							count++
+							if len(s.Lhs) == len(s.Rhs) {
+								def, defStmt = s.Rhs[i], s
+							}
+						}
+					}
+				case *ast.DeclStmt:
+					if gd, ok := s.Decl.(*ast.GenDecl); ok {
+						for _, sp := range gd.Specs {
+							if vs, ok := sp.(*ast.ValueSpec); ok {
+								for i, nm := range vs.Names {
+									if c.info().Defs[nm] == v {
+										count++
+										if len(vs.Values) == len(vs.Names) {
+											def, defStmt = vs.Values[i], s
+										}
+									}
+								}
+							}
+						}
+					}
+				}
+				return true
+			})
+			if count == 1 && def != nil && defStmt.Pos() <= e.Pos() && e.End() <= defStmt.End() {
+				if s, ok := mk(def); ok {
+					return s
+				}
+			}
+		}
+	}
+	trFail(e.Pos(), "the capacity of this field is tracked: its value in a literal must be `make([]T, 0, n)` (or a local of the same declaration defined by it)")
+	return ""
+}
+
+// ---------------------------------------------------------------------------------------------- a *T that is returned AND stored in a slice of its receiver
+//
+//   func (t *Table) AddRow() *Row { …; row = &Row{…}; t.rows = append(t.rows, row); return row }
+//                        returns a pointer to the LAST element of `t.rows`: in `r := t.AddRow()` the variable `r` is an ALIAS of
+//                        `t.rows[len(t.rows)-1]` (its index is bound right after the call); every assignment through `r` — a field
+//                        store or a call of a method that assigns through its receiver — is followed by the write-back
+//                        `t.rows[index] = r` (no run-time index operation in Go: the two are one object).  Appends to `t.rows` keep
+//                        the index valid; any other store into that field in the function of the alias is rejected.
+
+type trSliceAliasRet struct {
+	field string
+}
+
+// aliasSliceRetOf: does the method return a pointer it has just appended to a slice field of its receiver?
+func (t *trTranslator) aliasSliceRetOf(f *trFunc) *trSliceAliasRet {
+	if f == nil || f.decl == nil || f.decl.Recv == nil || f.decl.Body == nil || trDispatchOf[f] != nil {
+		return nil
+	}
+	info := f.pkg.info
+	sig := f.obj.Type().(*types.Signature)
+	if sig.Results().Len() != 1 {
+		return nil
+	}
+	if _, isPtr := sig.Results().At(0).Type().(*types.Pointer); !isPtr {
+		return nil
+	}
+	var retObj types.Object
+	nret := 0
+	ast.Inspect(f.decl.Body, func(n ast.Node) bool {
+		if r, ok := n.(*ast.ReturnStmt); ok {
+			nret++
+			if len(r.Results) == 1 {
+				if id, ok := trUnparen(r.Results[0]).(*ast.Ident); ok {
+					retObj = info.Uses[id]
+				}
+			}
+		}
+		return true
+	})
+	if nret != 1 || retObj == nil {
+		return nil
+	}
+	field := ""
+	nstore := 0
+	ast.Inspect(f.decl.Body, func(n ast.Node) bool {
+		as, ok := n.(*ast.AssignStmt)
+		if !ok || len(as.Lhs) != 1 || len(as.Rhs) != 1 {
+			return true
+		}
+		sel, ok := trUnparen(as.Lhs[0]).(*ast.SelectorExpr)
+		if !ok {
+			return true
+		}
+		rid, ok := trUnparen(sel.X).(*ast.Ident)
+		if !ok || info.Uses[rid] != sig.Recv() {
+			return true
+		}
+		call, ok := trUnparen(as.Rhs[0]).(*ast.CallExpr)
+		if !ok || len(call.Args) != 2 {
+			return true
+		}
+		if id, ok := call.Fun.(*ast.Ident); !ok || id.Name != "append" {
+			return true
+		}
+		if aid, ok := trUnparen(call.Args[1]).(*ast.Ident); ok && info.Uses[aid] == retObj &&
+			trSrcText(t.l.fset, call.Args[0]) == trSrcText(t.l.fset, as.Lhs[0]) {
+			field = sel.Sel.Name
+			nstore++
+		}
+		return true
+	})
+	if nstore != 1 {
+		return nil
+	}
+	return &trSliceAliasRet{field: field}
+}
+
+// sliceAliasRegister: after `x := recv.M(…)` with M as above: x is an alias of recv.<field>[len-1]
+func (c *trCtx) sliceAliasRegister(call *ast.CallExpr, tf *trFunc, recv ast.Expr, lhs []ast.Expr, define bool, k trK) trK {
+	sa := c.t.aliasSliceRetOf(tf)
+	if sa == nil || len(lhs) == 0 {
+		return k
+	}
+	rid, ok := trUnparen(recv).(*ast.Ident)
+	lid, ok2 := lhs[0].(*ast.Ident)
+	if !ok || !ok2 || len(lhs) != 1 || !define {
+		trFail(call.Pos(), "%s returns a pointer into a slice of its receiver: only `x := recv.%s(…)` with variables is in the subset", tf.leanName, tf.decl.Name.Name)
+	}
+	ro := c.info().Uses[rid]
+	// no other store into the aliased field in this function
+	ast.Inspect(c.fn.decl.Body, func(n ast.Node) bool {
+		if as, ok := n.(*ast.AssignStmt); ok {
+			for _, l := range as.Lhs {
+				for {
+					switch y := trUnparen(l).(type) {
+					case *ast.IndexExpr:
+						l = y.X
+						continue
+					}
+					break
+				}
+				if sel, ok := trUnparen(l).(*ast.SelectorExpr); ok && sel.Sel.Name == sa.field {
+					if id, ok := trUnparen(sel.X).(*ast.Ident); ok && c.info().Uses[id] == ro {
+						trFail(as.Pos(), "%s.%s is stored into here while %s points into it: outside the subset", rid.Name, sa.field, lid.Name)
+					}
+				}
+			}
+		}
+		return true
+	})
+	return func() trLines {
+		lo := c.info().Defs[lid]
+		key := c.fresh("key")
+		if c.aliases == nil {
+			c.aliases = map[types.Object]*trAlias{}
+		}
+		al := &trAlias{recvName: c.names[ro], recvObj: ro, field: sa.field, key: key, slice: true}
+		c.aliases[lo] = al
+		// the index is a Lean local without a Go variable: a synthetic object makes it a free variable of the loops that use the alias
+		ko := types.NewVar(call.Pos(), nil, key, types.Typ[types.Int])
+		c.names[ko] = key
+		trSynthVarType[ko] = "Nat"
+		trAliasKeyObj[al] = ko
+		return trLet(key, "Nat", trOne("("+c.names[ro]+"."+trMangle(sa.field)+".length - 1)"), k())
+	}
+}
+
+// sliceWriteBack: the assignment went through the alias: recv.<field>[key] = x
+func (c *trCtx) sliceWriteBack(al *trAlias, o types.Object, k trK) trK {
+	return func() trLines {
+		rn := c.names[al.recvObj]
+		rt := c.leanType(al.recvObj.Type(), o.Pos())
+		f := trMangle(al.field)
+		return trLet(rn, rt, trOne("{ "+rn+" with "+f+" := ("+rn+"."+f+".set "+al.key+" "+c.names[o]+") }"), k())
+	}
+}
+
+// aliasThrough: a call of a method that assigns through its receiver, on an alias into a slice: the write-back follows
+func (c *trCtx) aliasThrough(target ast.Expr, k trK) trK {
+	id, ok := trUnparen(target).(*ast.Ident)
+	if !ok || c.aliases == nil {
+		return k
+	}
+	o := c.info().Uses[id]
+	if al := c.aliases[o]; al != nil && al.slice {
+		return c.sliceWriteBack(al, o, k)
+	}
+	return k
+}
+
+// capGiven: the capacity part of a composite literal for the capacity-tracked field number i
+func (c *trCtx) capGiven(x *ast.CompositeLit, i int, given bool) string {
+	if !given {
+		return "(some 0)"
+	}
+	st := c.typeOf(x).Underlying()
+	if p, ok := st.(*types.Pointer); ok {
+		st = p.Elem().Underlying()
+	}
+	u := st.(*types.Struct)
+	for j, el := range x.Elts {
+		if kv, ok := el.(*ast.KeyValueExpr); ok {
+			if kv.Key.(*ast.Ident).Name == u.Field(i).Name() {
+				return c.capLiteral(kv.Value)
+			}
+		} else if j == i {
+			return c.capLiteral(el)
+		}
+	}
+	return "(some 0)"
+}
+
+// trFuelMayPanic: functions whose loop bound may panic (FillEmpty: `i < cap(r.cells)`)
+var trFuelMayPanic = map[string]bool{trTablePath + ".Row.FillEmpty": true}
